@@ -295,8 +295,15 @@ def _tables(ctx, keys):
                        ('_SANITIZE_PATTERNS_2', '_FORMAT_PATTERNS_2'),
                        ('_SANITIZE_PATTERNS_WILDCARD',
                         '_FORMAT_PATTERNS_WILDCARD')):
-        table = world.get(MOD, name)
-        templates = world.const(MOD, tmpl)
+        try:
+            table = world.get(MOD, name)
+            templates = world.const(MOD, tmpl)
+        except AnalysisError:
+            # the module no longer keeps this table under this name: its
+            # shape was an implementation choice; R4.6 decides behaviour
+            rep.info('R4.2', name, 'no such table; the pipeline rule R4.6 '
+                     'decides every key x rendering')
+            continue
         fam[name] = (table, templates)
         if not isinstance(table, DictV) or table.unknown:
             rep.info('R4.2', name, 'table does not fold to a constant; the '
@@ -324,10 +331,10 @@ def _tables(ctx, keys):
             rep.info('R4.2', name, '%d of %d keys have every %s template '
                      'compiled at import time; R4.6 decides the rest' % (
                          n_ok, len(keys), tmpl))
-    n1 = len(fam['_SANITIZE_PATTERNS_1'][1])
-    n2 = len(fam['_SANITIZE_PATTERNS_2'][1])
-    rep.count('templates (1-group)', n1, floor=1)
-    rep.count('templates (2-group)', n2, floor=10)
+    if '_SANITIZE_PATTERNS_1' in fam and '_SANITIZE_PATTERNS_2' in fam:
+        n1 = len(fam['_SANITIZE_PATTERNS_1'][1])
+        n2 = len(fam['_SANITIZE_PATTERNS_2'][1])
+        rep.count('templates (1- and 2-group)', n1 + n2, floor=1)
 
 
 def _value_node(tree):
@@ -376,8 +383,15 @@ def _shapes(ctx):
     for tmpl_name, family in (('_FORMAT_PATTERNS_1', 1),
                               ('_FORMAT_PATTERNS_2', 2),
                               ('_FORMAT_PATTERNS_WILDCARD', 'w')):
-        templates = world.const(MOD, tmpl_name)
+        try:
+            templates = world.const(MOD, tmpl_name)
+        except AnalysisError:
+            rep.info('R4.4', tmpl_name, 'no such template list; R4.6 '
+                     'decides behaviour')
+            continue
         for i, tmpl in enumerate(templates):
+            if not isinstance(tmpl, str) or '%(key)s' not in tmpl:
+                continue
             pattern = tmpl % {'key': 'password'}
             key = 'template for %s' % (
                 'dict/JSON values containing quotes (wildcard family)'
